@@ -242,3 +242,33 @@ def run(ctx):
 
     with ctx.rule("C11.R6", "T5", "named arguments are passed in their parameters' positions (no two flags or ids change places at a call site)", floor=5) as r:
         named_argument_rule(ctx, r, [("swimos_remote", "swimos_remote::")], allow={})
+
+    with ctx.rule("C11.R7", "T2", "one envelope per frame: a frame buffer that is reused is emptied between any two encodes, and every encoded frame is written", floor=4) as r:
+        n = 0
+        for b in rm.all_bodies():
+            if "::tests" in b.defpath:
+                continue
+            enc = [c for c in b.calls if c.via_name == "encode" and len(c.args) == 3 and "ReconEncoder" in (c.defpath + describe_operand(b, c.args[0]))]
+            if not enc:
+                continue
+            ctx.saw(b)
+            bufs = sorted({describe_operand(b, c.args[2]) for c in enc})
+            for bn in bufs:
+                es = [c for c in enc if describe_operand(b, c.args[2]) == bn]
+                clr = {c.block for c in b.calls if c.name in ("clear", "split", "split_to") and c.args and describe_operand(b, c.args[0]) == bn}
+                clr |= {c.block for c in b.calls if c.name == "truncate" and c.args and describe_operand(b, c.args[0]) == bn and describe_operand(b, c.args[1]) == "0"}
+                wr = {c.block for c in b.calls if c.name in ("write", "write_text", "send", "feed", "write_all") and any(describe_operand(b, a) == bn for a in c.args)}
+                home = b.defpath.split("swimos_remote::")[-1].split("::{closure")[0]
+                for k_, e in enumerate(sorted(es, key=lambda x: x.line)):
+                    n += 1
+                    what = describe_operand(b, e.args[1]).split("<")[-1].split(">")[0] if "<" in describe_operand(b, e.args[1]) else describe_operand(b, e.args[1])[:20]
+                    ok, wit = b.must_pass(b.succ[e.block], clr, targets={x.block for x in es})
+                    r.check(ok, "%s/%s/encode(%s)/buffer-emptied-before-next-encode" % (home, bn, what), e.loc(), "after this frame is encoded the buffer is emptied before anything else is encoded into it",
+                            "a frame can be encoded into `%s` while it still holds this one (path %s): two envelopes go out as one frame - the second is read as part of the first's body and never reaches its node and lane" % (bn, (wit or [])[:6] + ["..."] + (wit or [])[-4:]))
+                    if wr:
+                        ok2, wit2 = b.must_pass_edges(b.succ[e.block], wr, targets=set(b.exits()) | {x.block for x in es} | clr)
+                        r.check(ok2, "%s/%s/encode(%s)/frame-written" % (home, bn, what), e.loc(), "the encoded frame is handed to the socket before the buffer is reused or the task ends",
+                                "an encoded frame can be discarded without being written (path %s)" % (wit2,))
+        if n < 3:
+            raise AnchorMissing("expected the three encode sites of OutgoingTask::run (found %d)" % n)
+
